@@ -36,7 +36,7 @@ impl Event {
       Event::SetFail(r, b) => format!("SetFail(r{},{})", r, b),
       Event::TopDown(roots) => format!("TopDown[{}]", roots.iter().map(|t| format!("T{}", t)).collect::<Vec<_>>().join(",")),
       Event::BottomUp { pre, reported, then, builds } => format!(
-        "BottomUp{}{{pre:[{}],reported:[{}],then:[{}]}}", if *builds > 1 { "x2" } else { "" },
+        "BottomUp{}{{pre:[{}],reported:[{}],then:[{}]}}", match *builds { 2 => "x2", 3 => "-split", _ => "" },
         pre.iter().map(|t| format!("T{}", t)).collect::<Vec<_>>().join(","),
         reported.iter().map(|r| format!("r{}", r)).collect::<Vec<_>>().join(","),
         then.iter().map(|t| format!("T{}", t)).collect::<Vec<_>>().join(",")),
@@ -220,7 +220,14 @@ impl Live {
             log(Ev::RootRet(*t, o));
             outs.push(o);
           }
-          for _ in 0..(*builds).max(1) {
+          // builds: 1 = one build; 2 = the same report twice; 3 = the report split over two builds (first resource,
+          // then the rest)
+          let rounds: Vec<Vec<Rid>> = match *builds {
+            2 => vec![reported.clone(), reported.clone()],
+            3 if reported.len() >= 2 => vec![reported[..1].to_vec(), reported[1..].to_vec()],
+            _ => vec![reported.clone()],
+          };
+          for reported in &rounds {
             log(Ev::BottomUpStart);
             let mut bu = session.create_bottom_up_build();
             for r in reported {
